@@ -21,6 +21,10 @@ CHECKS = {
     text="Exhaustive over all route tables of up to 3 (quick) / 4 (thorough) entries over 7 patterns x 8 hosts: TLC proves Lookup admissible w.r.t. the declarative precedence and regex-translation = glob; every pair is then executed on real PreConfigRoute objects built from YAML "
          "(50 repeats x 3 objects), plus random larger tables; TLC judges stability, precedence and next-hop port of every answer.",
     note=TB + "pattern alphabet restricted to letters, digits, '.', '*', '-' (property domain).", ref="5/C18"),
+ "C16": dict(cat="model_checking", tech="TLA+ DialogOps spec: self-composed law Code(a)=Code(b) <=> Decl(a)=Decl(b) checked by TLC over all pairs of a bounded alphabet; the universe is emitted and the partition induced by the real GetDialog is validated by TLC",
+    text="TLC checks the law of C16 on every ordered pair of messages over 3 Call-IDs x 4 tags^2 x 6 URIs^2 (3.0M pairs thorough, 83k quick) for the repaired key construction and shows the pinned construction violates it. "
+         "Every assignment is rendered as request/response, both orientations, decorated/undecorated, compact names, bare addr-spec, parsed by the real parser and GetDialog; TLC checks that the interned results induce exactly the partition of the declarative identity; random long identifiers with one-component mutations.",
+    note=TB + "the driver's rendering of the abstract identity into header text is trusted (plain formatting).", ref="5/C16"),
 }
 NA_REASON = "check not built yet (work in progress; see DESIGN.md section 9)"
 
